@@ -127,8 +127,15 @@ impl Cache for MemoryStore {
 
     fn flush(&self, header: CacheMetaData) {
         if header.time_to_live > 0 {
+            let now = self.timer.timestamp();
+            let deadline = now + (header.time_to_live as u64);
             self.memory.alter_all(|_key, mut value| {
-                value.header.time_to_live = header.time_to_live;
+                let ttl = value.header.time_to_live as u64;
+                // an item that expires before the flush takes effect keeps its own deadline
+                if ttl == 0 || value.header.timestamp + ttl > deadline {
+                    value.header.timestamp = now;
+                    value.header.time_to_live = header.time_to_live;
+                }
                 value
             });
         } else {
